@@ -66,6 +66,7 @@ type Net struct {
 	mu      sync.Mutex
 	hosts   map[peer.ID]*Host
 	pending []*Envelope
+	conns   map[pairKey]int // open connections per pair of peers (network.go)
 	seq     atomic.Int64
 	// Policy decides the fate of each new envelope; nil = DeliverAsync. Called without locks held.
 	policy atomic.Pointer[func(*Envelope) Verdict]
@@ -106,6 +107,7 @@ func (n *Net) Host(id peer.ID) *Host {
 		return h
 	}
 	h := &Host{net: n, id: id}
+	h.nw = &fakeNetwork{h: h}
 	n.hosts[id] = h
 
 	return h
@@ -226,6 +228,7 @@ func (n *Net) Inject(from, to peer.ID, pid protocol.ID, msg proto.Message) ([]by
 
 // InjectRaw is Inject with arbitrary bytes.
 func (n *Net) InjectRaw(from, to peer.ID, pid protocol.ID, data []byte) ([]byte, bool) {
+	n.ensureConn(from, to) // a stream needs a connection: dial if there is none
 	e := &Envelope{Seq: n.seq.Add(1), From: from, To: to, Proto: pid, Data: data, Duplex: true, resp: make(chan []byte, 1)}
 	ok := n.Deliver(e)
 	b := <-e.resp
@@ -239,6 +242,7 @@ type Host struct {
 
 	net *Net
 	id  peer.ID
+	nw  *fakeNetwork
 
 	mu       sync.RWMutex
 	handlers []handlerEntry
@@ -329,6 +333,7 @@ func (h *Host) NewStream(ctx context.Context, p peer.ID, pids ...protocol.ID) (n
 	if chosen == "" {
 		return nil, ErrNoProtocol
 	}
+	h.net.ensureConn(h.id, p) // a stream needs a connection: dial if there is none
 
 	return &outStream{net: h.net, from: h.id, to: p, proto: chosen, ctx: ctx}, nil
 }
@@ -338,6 +343,16 @@ func (h *Host) NewStream(ctx context.Context, p peer.ID, pids ...protocol.ID) (n
 type conn struct {
 	network.Conn
 	local, remote peer.ID
+	net           *Net // nil for stream-only conns created before Network() existed
+}
+
+// Close closes all connections between the two peers (if the conn knows its network).
+func (c conn) Close() error {
+	if c.net != nil {
+		c.net.Disconnect(c.local, c.remote)
+	}
+
+	return nil
 }
 
 func (c conn) RemotePeer() peer.ID { return c.remote }
